@@ -37,7 +37,9 @@ class G:
         self.pk += 1
         return "X(%d)" % self.pk
 
-    def block(self, depth, ind, in_loop=False, in_finally=False, in_handler=False):
+    def block(self, depth, ind, in_loop=False, in_finally=False, in_handler=False, noret=False):
+        """noret: inside a try statement that has a finally clause and is itself lexically inside an except handler
+        (quarantine F26: a 'return' there releases the handler's saved exception although the finally clause may override the return)"""
         out = []
         n = self.rng.randint(1, 3)
         for _ in range(n):
@@ -45,16 +47,16 @@ class G:
             if r < 0.34:
                 out.append(ind + self.p())
             elif r < 0.62 and depth > 0:
-                out += self.try_stmt(depth - 1, ind, in_loop, in_finally, in_handler)
+                out += self.try_stmt(depth - 1, ind, in_loop, in_finally, in_handler, noret)
             elif r < 0.70 and depth > 0:
                 v = "i%d" % self.pk
                 self.pk += 1
                 out.append("%sfor %s in range(%d):" % (ind, v, self.rng.randint(1, 2)))
-                out += self.block(depth - 1, ind + "    ", True, in_finally, in_handler)
+                out += self.block(depth - 1, ind + "    ", True, in_finally, in_handler, noret)
             elif r < 0.75 and in_loop and not in_finally and not self.star:
                 # quarantine no_jump_out_of_finally (F6): no break/continue/return lexically inside finally
                 out.append("%sif a == %d: %s" % (ind, self.rng.randint(0, 2), self.rng.choice(["break", "continue"])))
-            elif r < 0.81 and not in_finally and not self.star:
+            elif r < 0.81 and not in_finally and not self.star and not noret:
                 out.append("%sif a == %d: return %d" % (ind, self.rng.randint(0, 2), self.pk))
             elif r < 0.87:
                 k = self.rng.random()
@@ -70,13 +72,13 @@ class G:
                     out.append(ind + self.p())
             elif r < 0.93 and depth > 0:
                 out.append("%swith CM(%d, %s, %s, %s):" % (ind, self.pk + 70, self.rng.random() < 0.3, self.rng.random() < 0.1, self.rng.random() < 0.15))
-                out += self.block(depth - 1, ind + "    ", in_loop, in_finally, in_handler)
+                out += self.block(depth - 1, ind + "    ", in_loop, in_finally, in_handler, noret)
             else:
                 out.append(ind + self.p())
         if not in_finally and not self.star and self.rng.random() < 0.10:
             # an unconditional jump as the last statement of the block (the block "is a terminator" for the code generator);
             # never lexically inside finally (quarantine F6)
-            ch = ["return %d" % self.pk, "raise %s(%d)" % (self.rng.choice(["E1", "E2", "E3"]), self.pk)]
+            ch = ["raise %s(%d)" % (self.rng.choice(["E1", "E2", "E3"]), self.pk)] + ([] if noret else ["return %d" % self.pk])
             if in_loop:
                 ch += ["break", "continue"]
             if in_handler:
@@ -84,12 +86,15 @@ class G:
             out.append(ind + self.rng.choice(ch))
         return out
 
-    def try_stmt(self, depth, ind, in_loop, in_finally, in_handler=False):
+    def try_stmt(self, depth, ind, in_loop, in_finally, in_handler=False, noret=False):
         out = [ind + "try:"]
         out.append(ind + "    " + self.p())
-        out += self.block(depth, ind + "    ", in_loop, in_finally, in_handler)
+        will_handle = self.rng.random() < 0.8
+        will_finally = (not will_handle) or self.rng.random() < 0.5
+        noret = noret or (will_finally and in_handler)
+        out += self.block(depth, ind + "    ", in_loop, in_finally, in_handler, noret)
         has_handler = False
-        if self.rng.random() < 0.8:
+        if will_handle:
             has_handler = True
             kw = "except*" if self.star else "except"
             used = set()
@@ -111,11 +116,11 @@ class G:
                 else:
                     out.append("%s%s %s:" % (ind, kw, exc))
                     out.append("%s    %s" % (ind, self.x()))
-                out += self.block(depth, ind + "    ", in_loop and not self.star, in_finally, in_handler=True)
+                out += self.block(depth, ind + "    ", in_loop and not self.star, in_finally, in_handler=True, noret=noret)
             if self.rng.random() < 0.25 and not self.star:
                 out.append(ind + "else:")
-                out += self.block(depth, ind + "    ", in_loop, in_finally, in_handler)
-        if not has_handler or self.rng.random() < 0.5:
+                out += self.block(depth, ind + "    ", in_loop, in_finally, in_handler, noret)
+        if will_finally:
             out.append(ind + "finally:")
             if not self.star and self.rng.random() < 0.18:
                 # a finally clause that cannot fail as a whole: its only statement swallows every error of the cleanup
@@ -503,7 +508,7 @@ def check_C22(tier):
                       "stub": ["probe/seam library deciding which call raises"]}
     rep.assumptions = ["CPython 3.12.1 executing the same source and plan is the reference", "message text of builtin exceptions is not compared",
                        "quarantine no_jump_out_of_finally (known finding F6): the grammar emits no break/continue/return lexically inside a finally clause"]
-    rep.quarantined = ["F6: no break/continue/return lexically inside finally", "F26: no bare 'raise' directly inside a finally clause that is itself inside an except handler"]
+    rep.quarantined = ["F6: no break/continue/return lexically inside finally", "F26: no bare 'raise' directly inside a finally clause; no 'return' inside a try statement with a finally clause that is lexically inside an except handler (incl. that statement's own handlers)"]
     budget = core.env_budget(60 if tier == "quick" else 900)
     viol, mods, cfg = explore(rep, prop, seed, tier, "base", budget=budget)
     core.replay_known(prop, replay, rep)
